@@ -393,7 +393,11 @@ impl FseTable {
         // Use fixed TF_SHIFT constant for optimal performance, regardless of table_log
         const TF_SHIFT: u8 = 12;
         let table_size = 1usize << TF_SHIFT;  // Always use TF_SHIFT for table size
-        let total_freq: u32 = frequencies.iter().sum();
+        // The table is also rebuilt from frequencies stored in compressed data: the sum may not fit
+        let total_freq: u32 = frequencies
+            .iter()
+            .try_fold(0u32, |acc, &f| acc.checked_add(f))
+            .ok_or_else(|| ZiporaError::invalid_data("Symbol frequencies overflow u32"))?;
         
         if total_freq == 0 {
             return Err(ZiporaError::invalid_data("Total frequency is zero"));
@@ -1242,7 +1246,8 @@ impl FseDecoder {
         let mut byte_pos = compressed_data.len(); // Start from the end for rANS
         
         // Decode symbols using advanced approach
-        let mut output = Vec::with_capacity(original_size);
+        // `original_size` is a header field: reserve cautiously and grow while decoding
+        let mut output = Vec::with_capacity(original_size.min(64 * 1024));
         
         for i in 0..original_size {
             // Decode symbol first (optimal order for performance)
